@@ -97,10 +97,11 @@ def vec_getitem(ex, st, o, v, i, node):
                                            z3.And(0 <= to_z3(iv.at(k)), to_z3(iv.at(k)) < to_z3(v.n)))))
         return [(st, st.alloc(Vec(iv.n, lambda k: v.at(to_z3(iv.at(k))), elt=v.elt, kind=v.kind)))]
     if isinstance(iv, int) or (is_z3(iv) and iv.sort() == I):
-        if v.kind == "series" and not isinstance(v.idx, RangeIdx):
-            raise Unsupported("Series[int] by label on a non-range index")
-        if v.kind == "series" and isinstance(iv, int) and iv < 0:
-            raise Unsupported("Series[-k] is a label lookup")
+        if not ex.spec_depth:       # in spec expressions v[k] is positional
+            if v.kind == "series" and not isinstance(v.idx, RangeIdx):
+                raise Unsupported("Series[int] by label on a non-range index")
+            if v.kind == "series" and isinstance(iv, int) and iv < 0:
+                raise Unsupported("Series[-k] is a label lookup")
         j = norm_index(v.n, iv)
         bounds(ex, st, v.n, j, node)
         return [(st, v.at(j))]
@@ -213,7 +214,44 @@ def vec_attr(ex, st, o, v, attr, node):
     if attr == "str":
         return [(st, StrAcc(o))]
     if attr == "dtype":
-        raise Unsupported("dtype")
+        return [(st, DTypeV(vec_dkind(v)))]
+    return None
+
+
+class DTypeV:
+    """numpy/pandas dtype, known only by kind: 'str' | 'int' | 'float' | 'bool' | None (unknown)."""
+
+    def __init__(self, kind):
+        self.kind = kind
+
+    def __repr__(self):
+        return "DType(%s)" % self.kind
+
+
+def vec_dkind(v):
+    t = v.elt
+    if isinstance(t, (dsl.Atom, dsl._Str)):
+        return "str"
+    if isinstance(t, dsl._Int):
+        return "int"
+    if isinstance(t, (dsl._Real, dsl._NReal)):
+        return "float"
+    if isinstance(t, dsl._Bool):
+        return "bool"
+    try:
+        probe = v.at(z3.IntVal(0))
+    except Unsupported:
+        return None
+    if isinstance(probe, (NF, float)):
+        return "float"
+    if isinstance(probe, bool):
+        return "bool"
+    if isinstance(probe, int):
+        return "int"
+    if isinstance(probe, str) or is_atom(probe):
+        return "str"
+    if is_z3(probe):
+        return {I: "int", R: "float", B: "bool", S: "str"}.get(probe.sort())
     return None
 
 
@@ -291,9 +329,17 @@ def v_astype(ex, st, o, args, kwargs, node):
     if tn in ("int", "numpy.int_", "numpy.int64"):
         used(ex, "astype(int) truncates toward zero")
 
+        probe = v.at(z3.IntVal(0))
+        if isinstance(probe, NF):
+            # NaN -> int raises in numpy/pandas: every element must be provably non-null
+            k = fresh(I, "k")
+            ex.oblig("not_nan", "L%s" % getattr(node, "lineno", "?"), st,
+                     z3.ForAll([k], z3.Implies(z3.And(0 <= k, k < to_z3(v.n)), z3.Not(as_nf(v.at(k)).null))),
+                     line=getattr(node, "lineno", None))
+
         def f(x):
             if isinstance(x, NF):
-                raise Unsupported("astype(int) on nullable (NaN -> int is an error in pandas)")
+                return trunc_real(x.val)
             if (is_z3(x) and x.sort() == R) or isinstance(x, float):
                 return trunc_real(x)
             if (is_z3(x) and x.sort() == B) or isinstance(x, bool):
@@ -482,7 +528,11 @@ def v_map(ex, st, o, args, kwargs, node):
     v = st.get(o)
     if isinstance(f, Func):
         def at(k):
-            r = ex.call(f, [v.at(k)], {}, st.fork(), node)
+            ex.map_depth += 1
+            try:
+                r = ex.call(f, [v.at(k)], {}, st.fork(), node)
+            finally:
+                ex.map_depth -= 1
             if len(r) != 1:
                 rs = r
                 val = rs[-1][1]
@@ -702,6 +752,17 @@ def np_mean(ex, st, args, kwargs, node):
     return to_real(s) / to_real(a.n)
 
 
+@builtin("numpy.dtype")
+def np_dtype_of(ex, st, args, kwargs, node):
+    t = st.get(args[0])
+    tn = t if isinstance(t, str) else (t.target if isinstance(t, Func) else None)
+    kind = {"str": "str", "int": "int", "float": "float", "bool": "bool", "numpy.float64": "float",
+            "numpy.int64": "int", "numpy.int_": "int", "numpy.bool_": "bool"}.get(tn)
+    if kind is None:
+        raise Unsupported("np.dtype(%r)" % (tn,))
+    return DTypeV(kind)
+
+
 @builtin("numpy.float64", "numpy.int_", "numpy.bool_", "numpy.int64", "numpy.float_", "numpy.string_", "numpy.str_",
          "numpy.number", "numpy.ndarray", "pandas.DataFrame.placeholder")
 def np_dtype(ex, st, args, kwargs, node):
@@ -912,14 +973,17 @@ def tab_indexer_set(ex, st, ind, t, i, val, node):
             def at(k, old=old, v=v):
                 x = old(k)
                 nv = v
-                if isinstance(x, NF):
-                    nv = as_nf(v)
+                if isinstance(x, NF) or (isinstance(v, float) and v != v):
+                    nv = as_nf(v)    # NaN stored into an int/float column: the column becomes nullable float
                 elif is_real(x) and not is_real(v) and not isinstance(v, NF):
                     nv = to_real(v)
                 return merge_val(_b(rows.at(k)), nv, x)
             cols = dict(t.cols)
             cols[col] = at
-            st.put(ind.ref, Tab(t.n, cols, t.idx, t.elts))
+            elts = dict(t.elts)
+            if isinstance(v, float) and v != v:
+                elts[col] = dsl.NReal
+            st.put(ind.ref, Tab(t.n, cols, t.idx, elts))
             return [st]
     raise Unsupported("DataFrame.%s store" % ind.kind)
 
@@ -958,6 +1022,51 @@ def t_assign(ex, st, o, args, kwargs, node):
     return st.alloc(Tab(t.n, cols, t.idx, t.elts))
 
 
+@tm("reindex")
+def t_reindex(ex, st, o, args, kwargs, node):
+    t = st.get(o)
+    if args or set(kwargs) != {"columns"}:
+        raise Unsupported("DataFrame.reindex(%s)" % sorted(kwargs))
+    cols = st.get(kwargs["columns"])
+    names = [st.get(x) for x in (cols.items if isinstance(cols, ListV) else cols)]
+    if not all(isinstance(x, str) for x in names) or any(x not in t.cols for x in names):
+        raise Unsupported("reindex(columns=) introducing new columns")
+    used(ex, "DataFrame.reindex(columns=names) reorders/selects the named columns, rows unchanged")
+    return st.alloc(Tab(t.n, {c: t.cols[c] for c in names}, t.idx, {c: t.elts.get(c) for c in names}))
+
+
+@tm("astype")
+def t_astype(ex, st, o, args, kwargs, node):
+    t = st.get(o)
+    spec = st.get(args[0])
+    if not isinstance(spec, DictV):
+        raise Unsupported("DataFrame.astype(%r)" % (spec,))
+    used(ex, "DataFrame.astype({col: type}) converts the listed columns elementwise, other columns unchanged")
+    cols = dict(t.cols)
+    elts = dict(t.elts)
+    for cn, ty in spec.d.items():
+        if cn not in cols:
+            raise Unsupported("astype of a missing column")
+        ty = st.get(ty)
+        tn = ty if isinstance(ty, str) else (ty.target if isinstance(ty, Func) else None)
+        kind = vec_dkind(t.col(cn))
+        if tn == "str":
+            if kind != "str":
+                raise Unsupported("astype(str) of a non-string column")
+        elif tn == "int":
+            if kind != "int":
+                raise Unsupported("astype(int) of a non-int column")
+        elif tn == "float":
+            if kind == "int":
+                cols[cn] = (lambda k, f=cols[cn]: to_real(f(k)))
+                elts[cn] = dsl.Real
+            elif kind != "float":
+                raise Unsupported("astype(float) of a %s column" % kind)
+        else:
+            raise Unsupported("astype(%r)" % (tn,))
+    return st.alloc(Tab(t.n, cols, t.idx, elts))
+
+
 @tm("apply")
 def t_apply(ex, st, o, args, kwargs, node):
     t = st.get(o)
@@ -968,7 +1077,11 @@ def t_apply(ex, st, o, args, kwargs, node):
 
     def at(k):
         row = Rec({c: g(k) for c, g in t.cols.items()}, "Series")
-        r = ex.call(f, [row], {}, st.fork(), node)
+        ex.map_depth += 1
+        try:
+            r = ex.call(f, [row], {}, st.fork(), node)
+        finally:
+            ex.map_depth -= 1
         rs = [(s2, x) for s2, x in r if not s2.ctl]
         if len(rs) != len(r):
             raise Unsupported("row function may raise")
@@ -1064,3 +1177,40 @@ def sp_le(ex, st, args, kwargs, node):
 @builtin("ge")
 def sp_ge(ex, st, args, kwargs, node):
     return scalar_compare(ex, st, "GtE", st.get(args[0]), st.get(args[1]))
+
+
+@builtin("startswith")
+def sp_startswith(ex, st, args, kwargs, node):
+    from .lib_obj import s_startswith
+    return s_startswith(ex, st, st.get(args[0]), [args[1]], {}, node)
+
+
+def aug_masked(ex, st, n):
+    """`x[mask] op= scalar` on an array/Series with a boolean mask: pointwise update of the True positions.
+    Returns None when the statement has another shape (the generic path handles it)."""
+    t = n.target
+    outs = []
+    for s, (o, i, v) in ex.evs([t.value, t.slice, n.value], st):
+        if s.ctl:
+            outs.append(s)
+            continue
+        ov, iv, vv = s.get(o), s.get(i), s.get(v)
+        if not (isinstance(ov, Vec) and isinstance(iv, Vec) and isinstance(o, Ref)):
+            return None
+        probe = iv.at(z3.IntVal(0))
+        if not ((is_z3(probe) and probe.sort() == B) or isinstance(probe, bool)):
+            return None
+        if isinstance(vv, (Vec, Tab, ListV, tuple)):
+            return None
+        if ov.ro:
+            raise Unsupported("in-place write through a read-only view")
+        used(ex, "x[mask] op= scalar updates exactly the True positions")
+        if iv.n is not ov.n:
+            ex.oblig("len_eq", "L%s" % n.lineno, s, to_z3(iv.n) == to_z3(ov.n), line=n.lineno)
+        if ov.idx is not None and iv.idx is not None:
+            same_index(ex, s, ov, iv, n)
+        op = type(n.op).__name__
+        s.put(o, ov.with_(at=lambda k, ov=ov, iv=iv, vv=vv, s=s: merge_val(
+            _b(iv.at(k)), coerce_elem(ov, scalar_binop(ex, s, op, ov.at(k), vv, None)), ov.at(k))))
+        outs.append(s)
+    return outs
